@@ -153,6 +153,15 @@ fn c11_case(c: &EngCase, st: &mut Stats, dense: u64) -> Result<(), String> {
         if s.legal.is_empty() && mv.is_some() {
             return Err(format!("C11 search of `{fen}` (no legal move) returns a move at k={k}"));
         }
+        // the same expiry instant with logging switched on (INFO + DEBUG events formatted, as
+        // `chess-cli -v` does): same result, and in particular no panic
+        if k <= 48 || starts.iter().any(|b| k + 3 >= *b && k <= *b + 3) || k >= total {
+            let ((mv2, _), _, _, _) = run_search_loud(&s.board, &s.tf, k, false).map_err(|e| format!("C11 [logging enabled] {}", search_err(e, &fen, k)))?;
+            if mv2 != mv {
+                return Err(format!("C11 search of `{fen}` with the limit expiring at poll {k} returns {:?} with logging enabled but {:?} without", mv2.map(|m| from_cm(m).to_string()), mv.map(|m| from_cm(m).to_string())));
+            }
+            st.class("also run with logging enabled");
+        }
         st.eval(1);
         let s3 = starts.get(3).copied().unwrap_or(u64::MAX);
         if s1.is_some() && k > 0 && k < s3 {
@@ -191,7 +200,7 @@ pub const C11: CheckDef = CheckDef {
         run_proptest(ctx, 11, ctx.share(ctx.tier.pick(2_000, 30_000)), eng_strategy(22, 40), eng_json, move |c, st| c11_case(c, st, dense))
     },
     replay: |v| c11_case(&eng_from(v)?, &mut Stats::new(), 1500),
-    rule: "case = position reached by a generated playout (optionally with the repetition table pre-filled along it); one instrumented unlimited run gives the poll counts s_1,s_2,s_3 at which deepening passes start; then the search is run with the limit first reporting expiry at poll k for EVERY k in 0..=min(s_2, 400 quick / 1500 thorough), s_i-3..s_i+3, generated values up to the total, and total+1. Oracle per k: returns within 10000 polls after expiry, no panic, move is None or reference-legal, None when no legal move exists, Some when k >= s_1, Some is monotone in k. evaluations = (position,k) searches. Non-trivial = 0 < k < s_3 on a position whose first pass finished; distinct by (position key, k).",
+    rule: "case = position reached by a generated playout (optionally with the repetition table pre-filled along it); one instrumented unlimited run gives the poll counts s_1,s_2,s_3 at which deepening passes start; then the search is run with the limit first reporting expiry at poll k for EVERY k in 0..=min(s_2, 400 quick / 1500 thorough), s_i-3..s_i+3, generated values up to the total, and total+1. Oracle per k: returns within 10000 polls after expiry, no panic (for k <= 48, around every boundary and at the total also with INFO/DEBUG logging enabled and every event field formatted: same move, no panic), move is None or reference-legal, None when no legal move exists, Some when k >= s_1, Some is monotone in k. evaluations = (position,k) searches. Non-trivial = 0 < k < s_3 on a position whose first pass finished; distinct by (position key, k).",
     assumptions: &[
         "the engine consults the Timeout only through is_complete(); expiry is monotone (once true, always true)",
         "termination is decided as 'returns within 10000 further polls after expiry' (the code needs <= depth + 4)",
@@ -361,15 +370,19 @@ fn c12_eval(mut s: Setup, history: bool, st: &mut Stats) -> Result<(), String> {
     Ok(())
 }
 
-/// positions harvested for mate-in-one density: sparse endings and mating nets
+/// positions harvested for mate-in-one density: sparse endings and mating nets, plus
+/// tactical back-rank positions kept nearly intact (at most three random plies)
 fn c12_strategy() -> impl Strategy<Value = EngCase> {
     let mate_root = prop_oneof![
         5 => (prop::collection::vec(any::<u8>(), 14..30), any::<bool>()).prop_map(|(a, mirror)| Root::Motif { kind: 9, a, mirror }),
         2 => synth_strategy(7).prop_map(Root::Synth),
         2 => root_strategy(12),
     ];
-    (mate_root, clocks_strategy(24), choices_strategy(24), any::<u64>(), prop::bool::weighted(0.25), prop_oneof![2 => Just(None), 1 => (96u8..=100).prop_map(Some)])
-        .prop_map(|(root, (half, full), choices, aux, history, clock)| EngCase { play: PlayCase { root, half, full, choices, aux }, history, extra: vec![], clock })
+    let general = (mate_root, clocks_strategy(24), choices_strategy(24), any::<u64>(), prop::bool::weighted(0.25), prop_oneof![2 => Just(None), 1 => (96u8..=100).prop_map(Some)])
+        .prop_map(|(root, (half, full), choices, aux, history, clock)| EngCase { play: PlayCase { root, half, full, choices, aux }, history, extra: vec![], clock });
+    let tactical = ((prop::collection::vec(any::<u8>(), 32..44), any::<bool>()), prop::collection::vec((prop_oneof![3 => Just(0u8), 2 => Just(1u8), 1 => Just(6u8)], any::<u16>()), 0..=3), any::<u64>())
+        .prop_map(|((a, mirror), choices, aux)| EngCase { play: PlayCase { root: Root::Motif { kind: 12, a, mirror }, half: 0, full: 0, choices, aux }, history: false, extra: vec![], clock: None });
+    prop_oneof![3 => general, 2 => tactical]
 }
 
 pub const C12: CheckDef = CheckDef {
@@ -432,6 +445,36 @@ fn c13_case(c: &EngCase, st: &mut Stats) -> Result<(), String> {
             st.class("mate score compared");
         }
     }
+    // a mate score ends the deepening by itself: there is no later pass boundary to cut at, so
+    // the final results of the two unlimited runs are compared when both stopped by themselves
+    // after the same number of passes
+    if pa.self_terminated && pb.self_terminated {
+        if pa.max_depth == pb.max_depth && pa.starts.len() == pb.starts.len() {
+            let (sa, sb) = (pa.result.1, pb.result.1);
+            if !score_eq(negate(sa), sb) {
+                return Err(format!(
+                    "C13 final result after {} pass(es): `{fen}` scores {sa:+?} but its mirror image `{}` scores {sb:+?} (expected {:+?})",
+                    pa.starts.len(),
+                    mp.fen(),
+                    negate(sa)
+                ));
+            }
+            st.eval(1);
+            st.nontrivial(digest(&(s.pos.key(), 99u8)));
+            st.class("self-terminated (mate score) results compared");
+        } else {
+            return Err(format!(
+                "C13 `{fen}` stops by itself after {} pass(es) with {:+?}, its mirror image `{}` after {} pass(es) with {:+?}",
+                pa.starts.len(),
+                pa.result.1,
+                mp.fen(),
+                pb.starts.len(),
+                pb.result.1
+            ));
+        }
+    } else if pa.self_terminated != pb.self_terminated && !pa.hit_cap && !pb.hit_cap {
+        return Err(format!("C13 only one of `{fen}` and its mirror image `{}` ends the deepening by itself (scores {:+?} / {:+?})", mp.fen(), pa.result.1, pb.result.1));
+    }
     if st.want_sample() {
         st.sample(json!({"fen": fen, "mirror": mp.fen(), "pass_starts": pa.starts, "mirror_pass_starts": pb.starts}));
     }
@@ -440,9 +483,15 @@ fn c13_case(c: &EngCase, st: &mut Stats) -> Result<(), String> {
 
 pub const C13: CheckDef = CheckDef {
     id: "C13",
-    worker: |ctx| { ctx.max_shrink.set(300); run_proptest(ctx, 13, ctx.share(ctx.tier.pick(6_000, 200_000)), eng_strategy(18, 40), eng_json, c13_case) },
+    worker: |ctx| {
+        ctx.max_shrink.set(300);
+        // half of the positions come from the general generator, half from mating nets and
+        // sparse material (forced mates of different lengths, draw-by-material captures)
+        run_proptest(ctx, 13, ctx.share(ctx.tier.pick(6_000, 200_000)), eng_strategy(18, 40), eng_json, c13_case)?;
+        run_proptest(ctx, 113, ctx.share(ctx.tier.pick(8_000, 250_000)), c12_strategy(), eng_json, c13_case)
+    },
     replay: |v| c13_case(&eng_from(v)?, &mut Stats::new()),
-    rule: "metamorphic: position P (<= 20 men, no promotion move at the root, empty repetition history, Engine::default()) and mirror(P) (colours swapped, ranks flipped, rights swapped, same marker file) are each searched under their OWN pass boundaries; for every depth d both complete within the poll cap, the score committed with the limit at s_{d+1} must satisfy score(mirror) = negate(score(P)). Moves are not compared (tie-breaking may differ). evaluations = depth comparisons. Non-trivial = depth >= 1 or a non-zero score; distinct by (position key, depth).",
+    rule: "metamorphic: position P (<= 20 men, no promotion move at the root, empty repetition history, Engine::default()) and mirror(P) (colours swapped, ranks flipped, rights swapped, same marker file) are each searched under their OWN pass boundaries; for every depth d both complete within the poll cap, the score committed with the limit at s_{d+1} must satisfy score(mirror) = negate(score(P)). When both searches end the deepening by themselves (mate score) their final scores and pass counts are compared too. Moves are not compared (tie-breaking may differ). evaluations = depth comparisons. Non-trivial = depth >= 1 or a non-zero score; distinct by (position key, depth).",
     assumptions: &["scores only: square iteration order is not mirror-invariant, so the chosen move may legitimately differ between equal-scoring moves", "pass boundaries from the 'start depth' event as in C11"],
     exhaustive: |_| false,
     uses_reference: true,
